@@ -505,6 +505,10 @@ func (tree *MutableTree) LoadVersion(targetVersion int64) (int64, error) {
 	tree.lastSaved = iTree.clone()
 
 	if !tree.skipFastStorageUpgrade {
+		// the uncommitted fast node changes belong to the working tree that was just replaced
+		tree.unsavedFastNodeAdditions = &sync.Map{}
+		tree.unsavedFastNodeRemovals = &sync.Map{}
+
 		// Attempt to upgrade
 		if _, err := tree.enableFastStorageAndCommitIfNotEnabled(); err != nil {
 			return 0, err
